@@ -24,6 +24,7 @@ import (
 func init() { verifChecks["C17"] = runC17 }
 
 type c17DB struct {
+	extras   int // further tables u1..un created in this database
 	hasTable bool
 	rows     []string
 	ids      map[uint32]bool
@@ -105,10 +106,28 @@ func (w *c17World) restart() bool {
 
 // checkCur reads the selected database back.
 func (w *c17World) checkCur(when string) bool {
-	if w.cur == "" || !w.dbs[w.cur].hasTable {
+	if w.cur == "" {
 		return true
 	}
 	db := w.dbs[w.cur]
+	for i := 1; i <= db.extras; i++ {
+		sel, _ := parseSelect(fmt.Sprintf("SELECT * FROM u%d", i))
+		var rows []*storage.Row
+		storage.VerifSetFuel(worldFuel)
+		err := guard(func() error {
+			var e error
+			rows, _, e = EvaluateSelect(sel, w.sess.RelationService)
+			return e
+		})
+		storage.VerifSetFuel(-1)
+		if err != nil || len(rows) != 0 {
+			w.fail("contents", "%s: database %s table u%d (created empty): %d rows, error %v", when, w.cur, i, len(rows), err)
+			return false
+		}
+	}
+	if !db.hasTable {
+		return true
+	}
 	sel, _ := parseSelect("SELECT * FROM t")
 	var rows []*storage.Row
 	storage.VerifSetFuel(worldFuel)
@@ -255,6 +274,31 @@ func (w *c17World) events() []c17Event {
 		}
 		return true
 	}})
+	ev = append(ev, c17Event{"CREATE TABLE u<next>", func(w *c17World) bool {
+		n := 1
+		if w.cur != "" {
+			n = w.dbs[w.cur].extras + 1
+		}
+		q := fmt.Sprintf("CREATE TABLE u%d (k int)", n)
+		err := w.exec(q)
+		if pe, ok := err.(*panicErr); ok {
+			w.fail("panic", "%s with database %q selected: %v\n%s", q, w.cur, pe.val, trimStack(pe.stack))
+			return false
+		}
+		if w.cur == "" {
+			if err == nil {
+				w.fail("no-db-accepted", "CREATE TABLE succeeded with no database selected")
+				return false
+			}
+			return true
+		}
+		if err != nil {
+			w.fail("statement-failed", "%s in database %s: %v", q, w.cur, err)
+			return false
+		}
+		w.dbs[w.cur].extras = n
+		return true
+	}})
 	ev = append(ev, c17Event{"INSERT", func(w *c17World) bool {
 		w.seq++
 		val := fmt.Sprintf("%s-%d", w.cur, w.seq)
@@ -327,7 +371,7 @@ func runC17(env *lib.Env, rep *lib.Report) {
 	seeds := []string{"empty", "a-with-row+b", "a-with-12-rows+b"}
 	rep.Bounds["depth"] = fmt.Sprintf("quick: 4 from the one-row seed and from the empty directory, 3 from the flushed 12-row seed; thorough: 6 / 5 / 4 (this run: tier depth %d)", depth)
 	rep.Bounds["seeds"] = seeds
-	rep.Bounds["events"] = "CREATE DATABASE a|B, USE a|b|A|B|nosuch (names are case-insensitive), CREATE TABLE t, INSERT, UPDATE (all rows), TICK of every live store (including abandoned ones), RESTART; SHOW DATABASES and read-back are checked after every event"
+	rep.Bounds["events"] = "CREATE DATABASE a|B, USE a|b|A|B|nosuch (names are case-insensitive), CREATE TABLE t, CREATE TABLE u1/u2/.. (the next unused name), INSERT, UPDATE (all rows), TICK of every live store (including abandoned ones), RESTART; SHOW DATABASES and read-back are checked after every event"
 	known := env.OpenKnown()
 	explore(env, rep, 0, func(c *lib.Ctx) {
 		if worldHome == "" {
